@@ -128,3 +128,44 @@ Theorem C02_roundtrip_full_decode_ranges : forall (HO : hops), hash_ok HO ->
                (ranges_result (a_res HO a) Finished, a_target HO a, a_ob HO a, st')).
 Proof. exact c02_roundtrip_full_decode_ranges. Qed.
 Print Assumptions C02_roundtrip_full_decode_ranges.
+
+(* ---- end to end: create, encode, decode into zeros (Proofs/E2EDownload*.v) ---- *)
+From BaoV Require Import Model.IO Spec.RangeSpec Spec.EncSpec Spec.HashAssm
+  Proofs.HistOb Proofs.HistEnc Proofs.HistInv Proofs.HistStep Proofs.FinalStore
+  Proofs.E2EDownload Proofs.E2EDownloadStep Proofs.E2EDownloadConv.
+
+(* the validating encoders (sync, fsm) on a created store emit the same bytes enc; a fault-free decode step (sync or
+   fsm) reading enc followed by any bytes, from any state of the history invariant, adds exactly the selection
+   of q to the delivered set *)
+Theorem C02_e2e_create_encode_decode : forall (HO : hops), hash_ok HO ->
+  forall (data : bytes HO) (bs : N), (blen HO data <= 2 ^ 63)%N -> (bs <= 10)%N ->
+  forall ob : outboard HO, created_store HO data bs ob ->
+  forall q : ranges, wf_ranges q = true ->
+  exists enc : bytes HO,
+    encode_ranges_validated HO data ob q = (Ok tt, enc) /\
+    encode_ranges_validated_fsm HO data ob q = (Ok tt, enc) /\
+    forall (D : N -> bool) (st : bytes HO * outboard HO) (rest : bytes HO) (fsm : bool),
+    Inv HO data bs D st ->
+    Inv HO data bs (fun c => D c || sel q (blen HO data) c)
+        (hist_step HO st (mkOp HO q (enc ++ rest) no_faults fsm)).
+Proof. exact e2e_create_encode_decode. Qed.
+Print Assumptions C02_e2e_create_encode_decode.
+
+(* the provider holds a created store and encodes ChunkRanges::all() = [0]; a requester that knows only the root
+   hash and the size (the all-zero initial state of any kind k) decodes the stream, followed by any bytes, with
+   either decoder and ends with the blob and the blob's created store - the provider's store itself when the
+   kinds agree *)
+Theorem C02_e2e_download_all : forall (HO : hops), hash_ok HO ->
+  forall (data : bytes HO) (bs : N), (blen HO data <= 2 ^ 63)%N -> (bs <= 10)%N ->
+  forall ob : outboard HO, created_store HO data bs ob ->
+  exists enc : bytes HO,
+    encode_ranges_validated HO data ob [0%N] = (Ok tt, enc) /\
+    encode_ranges_validated_fsm HO data ob [0%N] = (Ok tt, enc) /\
+    forall k, hist_kind k -> forall (rest : bytes HO) (fsm : bool),
+    fst (hist_step HO (init_target HO data, init_ob HO data bs k) (mkOp HO [0%N] (enc ++ rest) no_faults fsm)) = data /\
+    created_store HO data bs
+      (snd (hist_step HO (init_target HO data, init_ob HO data bs k) (mkOp HO [0%N] (enc ++ rest) no_faults fsm))) /\
+    (k = ob_k ob ->
+     snd (hist_step HO (init_target HO data, init_ob HO data bs k) (mkOp HO [0%N] (enc ++ rest) no_faults fsm)) = ob).
+Proof. exact e2e_download_all. Qed.
+Print Assumptions C02_e2e_download_all.
